@@ -1,5 +1,6 @@
 import FgaVerif.Model.PGraph
 import FgaVerif.Proofs.PGraphBuild
+import FgaVerif.Proofs.PGraphCycles
 /-!
 # C17 — plain model graph: faithful, reversible, stable DOT, sound path queries
 
@@ -23,10 +24,38 @@ the all-pairs reachability matrix and the two cycle flags).  Proved for **every*
   likewise on the reversed graph: the search is sound, and complete because its fuel covers the potential
   `|work| + |nodes| − |seen|`, which decreases by one per step.
 
+* cycle flags (`Proofs/PGraphCycles.lean`; `IsCycle g c`: `c = [s, x₁, …, xₖ, s]`, consecutive nodes joined
+  by a line in the direction source → target, `s, x₁, …, xₖ` pairwise distinct; `k = 0` is a self loop,
+  `c.length > 2` a cycle over two or more nodes; `IsMinCycle`: moreover `s` is the smallest node):
+  - `cycles_listed_sound` — every cycle the port's enumeration (`allCycles`, the stand-in for gonum's
+    `topo.DirectedCyclesIn`) lists is a simple cycle of the graph written from its smallest node;
+  - `cycles_listed_complete`, `cycles_listed_exact`, `proper_cycle_iff_listed` — on a graph whose lines
+    connect existing nodes (`LinesValid`, true of every built graph) every simple cycle, written from any of
+    its nodes, is listed in the rotation that starts at its smallest node (the fuel `|nodes| + 1` suffices: a
+    duplicate-free list of numbers below n has at most n elements); the list is exactly the set of
+    `IsMinCycle`s;
+  - `no_cycle_no_flags`, `acyclic_no_flags`, `acyclic_model_no_flags` — no self loop and no simple cycle over
+    two or more nodes: both flags false (`some (false, false)`); `no_flags_no_cycle` is the converse.  With a
+    self loop the port's flags are undefined (`cycle_flags_undefined_iff`: `none` iff a self loop exists —
+    gonum's answer on self loops is outside the model);
+  - `computed_cycle_flagged`, `computed_cycle_model_flagged` — if some simple cycle over two or more nodes is
+    such that **every line of the graph between two of its nodes** is a computed line, the compile-time flag
+    is set.  The hypothesis is about all lines among the cycle's nodes and not only the lines of the cycle
+    because the classification (`nodeListHasNonComputedEdge`, as in the code) inspects every line from an
+    earlier to a later position of the node list, parallel lines and chords included
+    (`classification_exact`); `chord_defeats_compile_flag` below is a graph with a pure computed 3-cycle and
+    a direct chord whose compile-time flag is false;
+  - `flags_exact` — exact meaning of both flags on a `LinesValid` graph; `compile_flag_sound`,
+    `compile_flag_computed_walk` — the compile-time flag is only set when a simple cycle over two or more
+    nodes runs along computed lines only (no hypothesis on the graph).
+
 That gonum's `topo.PathExistsIn` gives the same answers as the port's search is validated by the
-all-pairs correspondence, **not proved** (gonum is a parameter).  The cycle-flag
-clause and DOT text stability across builds are oracle/correspondence only (gonum's Johnson cycles and DOT
-writer are parameters).
+all-pairs correspondence, **not proved** (gonum is a parameter).  Likewise that gonum's
+`topo.DirectedCyclesIn` (Johnson) yields, up to order and rotation, the cycles the port lists is validated by
+the correspondence on the two flags, **not proved**; what is proved is that the port's list is the set of
+simple cycles.  That a *model* whose relations form a cycle of computed usersets yields such a graph cycle is
+shown on an example only (it needs well-formedness of the model: distinct type names without `#`, …).  DOT
+text stability across builds is oracle/correspondence only (gonum's DOT writer is a parameter).
 -/
 namespace FgaVerif.Props.C17
 open FgaVerif.Model.PGraph
@@ -135,5 +164,157 @@ theorem path_query_exact_reversed (m : FgaVerif.Model.Model) (a b : Nat) (ha : a
     pathExistsIds (reversed (build m)) a b = true ↔ Path (reversed (build m)) a b := by
   rw [pathExistsIds_iff (reversed (build m)) (reversed_lines_valid _ (build_lines_valid m).1) a b (by simpa [reversed] using ha),
     path_iff_reach]
+
+/-! ## cycle flags -/
+
+/-- **soundness of the enumeration** -/
+theorem cycles_listed_sound (g : G) (c : List Nat) (h : c ∈ allCycles g) :
+    IsCycle g c ∧ IsMinCycle g c ∧ ∃ s, c.head? = some s ∧ s < g.nodes.length :=
+  ⟨allCycles_sound g c h, allCycles_sound_min g c h⟩
+
+/-- **completeness of the enumeration** (any rotation) -/
+theorem cycles_listed_complete (g : G) (hv : LinesValid g) (c : List Nat) (h : IsCycle g c) :
+    ∃ c' ∈ allCycles g, IsMinCycle g c' ∧
+      (∃ pre post, c.dropLast = pre ++ post ∧ c'.dropLast = post ++ pre) ∧
+      c'.length = c.length ∧ ∀ x, x ∈ c' ↔ x ∈ c :=
+  allCycles_complete g hv c h
+
+theorem cycles_listed_exact (g : G) (hv : LinesValid g) (c : List Nat) : c ∈ allCycles g ↔ IsMinCycle g c :=
+  mem_allCycles_iff g hv c
+
+theorem proper_cycle_iff_listed (g : G) (hv : LinesValid g) :
+    (∃ c, IsCycle g c ∧ c.length > 2) ↔ ∃ c' ∈ allCycles g, c'.length > 2 :=
+  FgaVerif.Model.PGraph.proper_cycle_iff_listed g hv
+
+theorem cycle_nodes_exist (g : G) (hv : LinesValid g) (c : List Nat) (h : IsCycle g c) :
+    ∀ x ∈ c, x < g.nodes.length :=
+  cycle_nodes_lt g hv c h
+
+/-- the flags are undefined exactly when some line is a self loop -/
+theorem cycle_flags_undefined_iff (g : G) : cycleFlags g = none ↔ ∃ a, ∃ l ∈ g.lines, l.src = a ∧ l.dst = a := by
+  rw [cycleFlags_none_iff, hasSelfLoop_iff]; rfl
+
+/-- the classification of a listed cycle: "compile time" iff every line from an earlier to a later
+    position of the node list is a computed line -/
+theorem classification_exact (g : G) (c : List Nat) :
+    nodeListHasNonComputedEdge g c = false ↔
+      c.Pairwise (fun a b => ∀ l ∈ g.lines, l.src = a → l.dst = b → l.etype = .computed) :=
+  nodeList_eq_false g c
+
+/-- **an acyclic graph reports no cycle** -/
+theorem no_cycle_no_flags (g : G) (hs : hasSelfLoop g = false) (h : ¬ ∃ c, IsCycle g c ∧ c.length > 2) :
+    cycleFlags g = some (false, false) :=
+  FgaVerif.Model.PGraph.no_cycle_no_flags g hs h
+
+theorem acyclic_no_flags (g : G) (h : ∀ c, ¬ IsCycle g c) : cycleFlags g = some (false, false) :=
+  FgaVerif.Model.PGraph.acyclic_no_flags g h
+
+theorem acyclic_model_no_flags (m : FgaVerif.Model.Model) (h : ∀ c, ¬ IsCycle (build m) c) :
+    cycleFlags (build m) = some (false, false) :=
+  FgaVerif.Model.PGraph.acyclic_no_flags _ h
+
+theorem no_flags_no_cycle (g : G) (hv : LinesValid g) (h : cycleFlags g = some (false, false)) :
+    ¬ ∃ c, IsCycle g c ∧ c.length > 2 :=
+  FgaVerif.Model.PGraph.no_flags_no_cycle g hv h
+
+/-- **a cycle of pure computed usersets is reported as a compile-time cycle** -/
+theorem computed_cycle_flagged (g : G) (hv : LinesValid g) (hs : hasSelfLoop g = false) (c : List Nat)
+    (hc : IsCycle g c) (hl : c.length > 2)
+    (hcomp : ∀ l ∈ g.lines, l.src ∈ c → l.dst ∈ c → l.etype = .computed) :
+    ∃ r, cycleFlags g = some (true, r) :=
+  FgaVerif.Model.PGraph.computed_cycle_flagged g hv hs c hc hl hcomp
+
+/-- the same for the graph of a model (its lines always connect existing nodes) -/
+theorem computed_cycle_model_flagged (m : FgaVerif.Model.Model) (hs : hasSelfLoop (build m) = false) (c : List Nat)
+    (hc : IsCycle (build m) c) (hl : c.length > 2)
+    (hcomp : ∀ l ∈ (build m).lines, l.src ∈ c → l.dst ∈ c → l.etype = .computed) :
+    ∃ r, cycleFlags (build m) = some (true, r) :=
+  FgaVerif.Model.PGraph.computed_cycle_flagged _ (build_lines_valid m).1 hs c hc hl hcomp
+
+/-- exact meaning of both flags -/
+theorem flags_exact (g : G) (hv : LinesValid g) (t r : Bool) (h : cycleFlags g = some (t, r)) :
+    (t = true ↔ ∃ c, IsMinCycle g c ∧ c.length > 2 ∧ c.Pairwise (OnlyComputed g)) ∧
+    (r = true ↔ ∃ c, IsMinCycle g c ∧ c.length > 2 ∧ ¬ c.Pairwise (OnlyComputed g)) :=
+  FgaVerif.Model.PGraph.flags_exact g hv t r h
+
+/-- converse of `computed_cycle_flagged`, for every graph -/
+theorem compile_flag_sound (g : G) (r : Bool) (h : cycleFlags g = some (true, r)) :
+    ∃ c, IsMinCycle g c ∧ c.length > 2 ∧ c.Pairwise (OnlyComputed g) :=
+  FgaVerif.Model.PGraph.compile_flag_sound g r h
+
+theorem compile_flag_computed_walk (g : G) (r : Bool) (h : cycleFlags g = some (true, r)) :
+    ∃ s mid, mid ≠ [] ∧ (s :: mid).Nodup ∧ ComputedWalk g s (mid ++ [s]) :=
+  FgaVerif.Model.PGraph.compile_flag_computed_walk g r h
+
+/-! ### non-vacuity -/
+
+/-- `type doc  relations  define a: b  define b: a` -/
+def mAB : FgaVerif.Model.Model :=
+  { schema := "1.1", types := [{ name := "doc", relations := [("a", .computed "b"), ("b", .computed "a")] }] }
+def gAB : G :=
+  { nodes := [⟨0, "doc", .specificType, "doc"⟩, ⟨1, "doc#a", .typeAndRelation, "doc#a"⟩,
+              ⟨2, "doc#b", .typeAndRelation, "doc#b"⟩],
+    lines := [⟨2, 1, 0, .computed, ""⟩, ⟨1, 2, 0, .computed, ""⟩] }
+theorem build_mAB : build mAB = gAB := by rfl
+
+/-- the hypotheses of `computed_cycle_model_flagged` hold of the two-relation cycle … -/
+example : ∃ r, cycleFlags (build mAB) = some (true, r) :=
+  computed_cycle_model_flagged mAB (by rw [build_mAB]; decide) [1, 2, 1]
+    ⟨1, [2], rfl, by decide, by rw [build_mAB]; simp [Walk, Line, gAB]⟩ (by decide) (by rw [build_mAB]; decide)
+/-- … also written from its other node … -/
+example : IsCycle (build mAB) [2, 1, 2] :=
+  ⟨2, [1], rfl, by decide, by rw [build_mAB]; simp [Walk, Line, gAB]⟩
+/-- … and the flags evaluate to (compile time, not runtime) -/
+example : cycleFlags (build mAB) = some (true, false) := by
+  rw [build_mAB]
+  simp [cycleFlags, hasSelfLoop, allCycles, gAB, cyclesFrom, cyclesVia, succSet, succs, List.range, List.range.loop,
+    List.eraseDups_cons, nodeListHasNonComputedEdge, hasNonComputedBetween]
+  decide
+example : allCycles (build mAB) = [[1, 2, 1]] := by
+  rw [build_mAB]
+  simp [allCycles, gAB, cyclesFrom, cyclesVia, succSet, succs, List.range, List.range.loop, List.eraseDups_cons]
+
+/-- `type doc  relations  define a: b  define b: c or d` — acyclic -/
+def mAcyc : FgaVerif.Model.Model :=
+  { schema := "1.1",
+    types := [{ name := "doc", relations := [("a", .computed "b"), ("b", .union [.computed "c", .computed "d"])] }] }
+def gAcyc : G :=
+  { nodes := [⟨0, "doc", .specificType, "doc"⟩, ⟨1, "doc#a", .typeAndRelation, "doc#a"⟩,
+              ⟨2, "doc#b", .typeAndRelation, "doc#b"⟩, ⟨3, "union", .operator, "union:0"⟩,
+              ⟨4, "doc#c", .typeAndRelation, "doc#c"⟩, ⟨5, "doc#d", .typeAndRelation, "doc#d"⟩],
+    lines := [⟨2, 1, 0, .computed, ""⟩, ⟨3, 2, 0, .rewrite, ""⟩, ⟨4, 3, 0, .rewrite, ""⟩, ⟨5, 3, 0, .rewrite, ""⟩],
+    opCount := 1 }
+theorem build_mAcyc : build mAcyc = gAcyc := by rfl
+
+/-- the hypothesis of `acyclic_model_no_flags` holds (every line goes from a larger to a smaller id) … -/
+example : ∀ c, ¬ IsCycle (build mAcyc) c :=
+  no_cycle_of_rank _ id (by rw [build_mAcyc]; decide)
+example : cycleFlags (build mAcyc) = some (false, false) :=
+  acyclic_model_no_flags mAcyc (no_cycle_of_rank _ id (by rw [build_mAcyc]; decide))
+/-- … and the flags evaluate to "none reported" -/
+example : cycleFlags (build mAcyc) = some (false, false) := by
+  rw [build_mAcyc]
+  simp [cycleFlags, hasSelfLoop, allCycles, gAcyc, cyclesFrom, cyclesVia, succSet, succs, List.range, List.range.loop,
+    List.eraseDups_cons]
+
+/-- why `computed_cycle_flagged` asks about all lines among the nodes of the cycle: a pure computed cycle
+    0 → 1 → 2 → 0 with a direct chord 0 → 2 is not reported at compile time (both listed cycles,
+    `[0, 1, 2, 0]` and `[0, 2, 0]`, see the direct line) -/
+def gChord : G :=
+  { nodes := [⟨0, "t#a", .typeAndRelation, "t#a"⟩, ⟨1, "t#b", .typeAndRelation, "t#b"⟩,
+              ⟨2, "t#c", .typeAndRelation, "t#c"⟩],
+    lines := [⟨0, 1, 0, .computed, ""⟩, ⟨1, 2, 0, .computed, ""⟩, ⟨2, 0, 0, .computed, ""⟩, ⟨0, 2, 0, .direct, ""⟩] }
+theorem chord_defeats_compile_flag :
+    ComputedWalk gChord 0 [1, 2, 0] ∧ cycleFlags gChord = some (false, true) := by
+  constructor
+  · simp [ComputedWalk, Line, OnlyComputed, gChord]
+  · simp [cycleFlags, hasSelfLoop, allCycles, gChord, cyclesFrom, cyclesVia, succSet, succs, List.range,
+      List.range.loop, List.eraseDups_cons, nodeListHasNonComputedEdge, hasNonComputedBetween]
+    decide
+
+/-- a self loop: the flags are undefined -/
+example : cycleFlags { nodes := [⟨0, "t#a", .typeAndRelation, "t#a"⟩], lines := [⟨0, 0, 0, .computed, ""⟩] } = none := by
+  decide
+
 
 end FgaVerif.Props.C17
